@@ -98,3 +98,21 @@ def rt_frac(v, length, scale):
 
 def rt_int64(v):
     return parse_int64(inv(v))
+
+
+def pattern_rt(pattern, value):
+    """format then parse with the same pattern"""
+    text = pattern.format(value)
+    r = pattern.parse(text)
+    if r.success:
+        return (True, r.value, text)
+    return (False, None, text)
+
+
+def pattern_parse(pattern, text):
+    """parse any text: a result object, never an exception; a success carries a value that formats back"""
+    r = pattern.parse(text)
+    if r.success:
+        v = r.value
+        return (True, v, pattern.format(v))
+    return (False, None, None)
